@@ -68,15 +68,16 @@ fn bad_args(rng: &mut Rng, s2: usize, norm: bool, array_form: bool) -> Args {
                 a.len1 = 65 + rng.below(190) as u8;
             }
             let n = 65 + rng.usize_below(16);
-            a.bh1 = (0..n).map(|i| ((i * 11) % 64) as u8).collect();
+            a.bh1 = overlong(rng, n);
         }
         2 => {
             a.what = "block hash 2 too long";
             if array_form {
                 a.len2 = (s2 + 1 + rng.usize_below(255 - s2)) as u8;
             }
-            let n = s2 + 1 + rng.usize_below(16);
-            a.bh2 = (0..n).map(|i| ((i * 13) % 64) as u8).collect();
+            // up to twice the capacity: for the short types this stays within block hash 1's capacity
+            let n = s2 + 1 + rng.usize_below(s2.max(16));
+            a.bh2 = overlong(rng, n);
         }
         3 => {
             a.what = "symbol >= 64";
@@ -155,6 +156,22 @@ fn bad_args(rng: &mut Rng, s2: usize, norm: bool, array_form: bool) -> Args {
         }
     }
     a
+}
+
+/// an over-long block hash: either all distinct neighbours, or (half of the time) with a long run so that
+/// its run-collapse would fit into the capacity (the shape a length check against the wrong bound lets through)
+fn overlong(rng: &mut Rng, n: usize) -> Vec<u8> {
+    if rng.chance(1, 2) {
+        (0..n).map(|i| ((i * 11 + 3) % 64) as u8).collect()
+    } else {
+        let pre = rng.urange(0, 6.min(n.saturating_sub(4)));
+        let post = rng.urange(0, 3.min(n - pre - 4));
+        let s = rng.below(64) as u8;
+        let mut v: Vec<u8> = (0..pre).map(|i| (s + 1 + i as u8) % 64).collect();
+        v.extend(std::iter::repeat(s).take(n - pre - post));
+        v.extend((0..post).map(|i| (s + 9 + i as u8) % 64));
+        v
+    }
 }
 
 fn args_sig(a: &Args, array_form: bool) -> String {
